@@ -347,7 +347,7 @@ PROPS["C07"] = dict(
           "level and inside a defined-length item of a defined-length sequence, each followed by a sentinel element: Accept consumes exactly "
           "the declared bytes, NextEven one more, Fail reports an error as the first token; the sentinel, ItemEnd and SequenceEnd tokens "
           "come at the right places and the source is consumed exactly to its end",
-          bound="1441 streams: 3 strategies x 32 VRs x 7 odd lengths, plus (Accept / NextEven) the same element alone inside an item whose own declared length is odd; the LazyDataSetReader (values skipped, and values read) on 10 VRs x 4 odd lengths x 3 strategies; encapsulated pixel data with an offset table of 0 / 4 / 8 bytes and a first fragment of odd declared length under the 3 strategies, eager and lazy (native enumeration of the compiled code; not a deductive result)",
+          bound="1936 cases: 3 strategies x 32 VRs x 7 odd lengths, plus (Accept / NextEven) the same element alone inside an item whose own declared length is odd; the LazyDataSetReader (values skipped, and values read) on 10 VRs x 4 odd lengths x 3 strategies, inside an undefined-length sequence and inside a DEFINED-length sequence whose own declared length is odd (the latter also through the eager reader); encapsulated pixel data with an offset table of 0 / 4 / 8 bytes and of lengths that are not a multiple of 4 (5, 7, 6, 2, 1) and a first fragment of odd declared length under the 3 strategies, eager and lazy (native enumeration of the compiled code; not a deductive result)",
           fns=[("parser/src/dataset/read.rs", "next", r"impl<S>\s+Iterator\s+for\s+DataSetReader"), ("parser/src/dataset/lazy_read.rs", "advance")]),
         N("C07.value_readers_native", _W % "c07_positions",
           "on the compiled StatefulDecoder: read_value / read_value_preserved / read_value_bytes for every VR, declared lengths 0-17 and four "
